@@ -201,6 +201,31 @@ class _ModuleProxy:
         return getattr(self.__dict__['_real'], name)
 
 
+class _FaultyReader:
+    """The child's stdout as the parent sees it, with one transient read
+    error: the n-th readline() raises OSError(errno) once, before anything is
+    read (nothing is lost - a retry gets the line)."""
+
+    def __init__(self, real, nth, code, layer):
+        self.__dict__.update(_real=real, _nth=nth, _code=code, _calls=0,
+                             _layer=layer)
+
+    def readline(self, *a):
+        d = self.__dict__
+        d['_calls'] += 1
+        if d['_calls'] == d['_nth']:
+            emit('read.fail', layer=d['_layer'], nth=d['_nth'],
+                 code=d['_code'])
+            raise OSError(d['_code'], os.strerror(d['_code']))
+        return d['_real'].readline(*a)
+
+    def __getattr__(self, name):
+        return getattr(self.__dict__['_real'], name)
+
+    def __iter__(self):
+        return iter(self.__dict__['_real'])
+
+
 def _make_popen(real_subprocess):
     RealPopen = real_subprocess.Popen
 
@@ -249,6 +274,14 @@ def _make_popen(real_subprocess):
                 alive = st.alive
                 st.polls_at_last_spawn = st.polls
             emit('spawn', layer=layer, child=self.pid, alive=alive, nth=nth)
+            rf = os.environ.get('ZTR_READ_FAIL')
+            if rf and self.stdout is not None:
+                # '<k-th child>:<n-th readline>:<ERRNO>'
+                import errno
+                k, n, code = rf.split(':')
+                if int(k) == nth:
+                    self.stdout = _FaultyReader(
+                        self.stdout, int(n), getattr(errno, code), layer)
 
         def _ztr_reaped(self, how):
             st = _PopenState
